@@ -14,7 +14,7 @@
    C20: trunc/C16R.v), and the quadratic rate of the gap. *)
 From Coq Require Import QArith Qcanon ZArith.
 From mathcomp Require Import all_ssreflect all_algebra.
-From GT Require Import QcField QcOrder Tensor DetExec LogDom Obj Factor Measure Pdf Cond Moments Approx EvalLemmas Spec C01_proofs PdfLemmas C04_proofs C1617_proofs HetBound C14_proofs C17_bound.
+From GT Require Import QcField QcOrder Tensor DetExec LogDom Obj Factor Measure Pdf Cond Moments Approx EvalLemmas Spec C01_proofs PdfLemmas C04_proofs C1617_proofs HetBound HetRelu C14_proofs C17_bound C1617_extra.
 Local Close Scope Q_scope. Local Close Scope Qc_scope. Local Close Scope Z_scope.
 Import GRing.Theory Num.Theory.
 Local Open Scope ring_scope.
@@ -96,6 +96,27 @@ Theorem C17_bound_assembly Dy Da Dk Dx (A M : mat F) (b : vec F) (p : measure LS
                         - sumn Dk (fun i => het i n) + sumn Dk (fun i => kq i rp)))
     - het_hS0 LS Dy Da A - hln LS 2%:R *+ nln2 - hl2p LS *+ Dy.
 Proof. exact: hb_final_spec. Qed.
+
+(* ---- rectified-linear and step links ---- *)
+(* the factor on the density of h evaluates to the exponent -h/(1+w) - ln(1+w) + w/(1+w) whose exponential is <= 1/(1+h) (trunc/C17R.v);
+   k_func is the integral of ln(1+w) + (h-w)/(1+w) against the truncated measure with mass Zh and first moment Eh *)
+Theorem C17_relu_bound_factor N (om l1p : vec F) n (x : vec F) : (n < N)%N -> 1 + om n != 0 ->
+  feval (hb_relu_factor LS N om l1p) n x = emb LS (- x 0%N / (1 + om n) - l1p n + om n / (1 + om n)).
+Proof. exact: hb_relu_factor_eval. Qed.
+Theorem C17_relu_logdet_term (om l1p Zh Eh : vec F) r : 1 + om r != 0 ->
+  hb_relu_kq om l1p Zh Eh r = Zh r * (l1p r - om r / (1 + om r)) + Eh r / (1 + om r).
+Proof. exact: hb_relu_kq_spec. Qed.
+(* the regression of the projected residual g on h that the code takes from the joint covariance (fix fea2e2f) is the Gaussian
+   conditional p(g | h) of the joint density whenever that density is regular: slope, intercept and residual variance *)
+Theorem C17_regression_is_conditioning (p : measure LS) r :
+  pdf_ok p -> uD p = 2%N -> (r < uR p)%N ->
+  let c := condition_on_explicit [:: 1%N] [:: 0%N] p in
+  [/\ cM c r 0%N 0%N = reg_c1 (getS p r), cb c r 0%N = reg_c0 (getmu p r) (getS p r) & cSig c r 0%N 0%N = reg_v (getS p r)].
+Proof. exact: reg_matches_condition_on_explicit. Qed.
+(* the polynomial the step / ReLU terms integrate against the truncated moments E0, E1, E2 of h *)
+Theorem C17_residual_second_moment (c0 c1 v E0 E1 E2 : F) :
+  hb_poly2 c0 c1 v E0 E1 E2 = (c0 ^+ 2 + v) * E0 + 2%:R * c0 * c1 * E1 + c1 ^+ 2 * E2.
+Proof. exact: hb_poly2_spec. Qed.
 End C17.
 
 (* Da > Dy: Dy = 1, Da = 2, Dk = 1, A = [1 1], link value 1: Sigma = 3, the code's Lambda = 3/8 *)
@@ -114,3 +135,7 @@ Print Assumptions C17_coshm1_bound_measures.
 Print Assumptions C17_exp_logdet_term.
 Print Assumptions C17_coshm1_logdet_term.
 Print Assumptions C17_bound_assembly.
+Print Assumptions C17_relu_bound_factor.
+Print Assumptions C17_relu_logdet_term.
+Print Assumptions C17_regression_is_conditioning.
+Print Assumptions C17_residual_second_moment.
